@@ -8,6 +8,8 @@ import re
 import lib
 import qgen
 import enginecheck as ec
+import importlib
+c14w = importlib.import_module('props.c14w')
 
 THEOREM = 'C14_first_offender_select / _update / C14_static_before_output / C14_field_count_warning_* (Props/C14.v)'
 
@@ -181,7 +183,13 @@ def run(ctx):
     for c in cases:
         if 'poison' in c.get('tags', ()):
             ctx.stat('clause_' + c['clause'])
+    # CSV level: BOM / malformed quoting / field counts (reader) and None / delimiter (writer) warnings, IO errors, through query_csv of both ports
+    c14w.run(ctx, THEOREM + ' + reader spec / writer model (C12_records, C10_lossy_never_silent)')
+    ctx.rule += ('; CSV level: random byte strings (BOM, quotes, ragged lines, invalid utf-8) x input policy x output policy x {select *, select *, None, select "x"} '
+                 'file to file through query_csv of both ports: warning kinds == reader-spec warnings + writer-model flags exactly, output text == model lines, undecodable input == IO error')
 
 
 def replay(ctx, case):
+    if case.get('part') == 'csvwarn':
+        return c14w.replay(ctx, case, THEOREM)
     ec.replay(ctx, case, THEOREM, rel=rel)
